@@ -854,3 +854,101 @@ Theorem string_codec_needs_printable_brace is_print :
 Proof.
   intros H. cbn [escape]. unfold escape_rune. simpl. rewrite H. reflexivity.
 Qed.
+
+(* ------------------------------------------------------------------------ *)
+(* tiling: the stringTemplate scanner neither loses nor invents bytes        *)
+(* ------------------------------------------------------------------------ *)
+Definition piece_bytes (p : piece) : list Z :=
+  match p with PLit b | PNewline b | PInvalid b => b end.
+Definition pend (st : mstate) : list Z :=
+  match st with
+  | MG => [] | MLit cur => cur | MBs pre => pre ++ [92] | MUtf _ cur => cur
+  | MD c => [c] | MDD c => [c; c] | MEsc c => [c; c; 123] | MNl cur => cur
+  end.
+
+Ltac brk H :=
+  repeat match type of H with
+  | context[if ?c then _ else _] => destruct c eqn:?
+  | context[match lead_len ?b with _ => _ end] => destruct (lead_len b) as [[|?]|] eqn:?
+  | context[match ?k with O => _ | S _ => _ end] => destruct k
+  end.
+
+Ltac eqs := repeat match goal with H : (_ =? _) = true |- _ => apply Z.eqb_eq in H end; subst.
+
+Lemma mground_cont b out st' : mground b = MCont out st' -> [b] = flat_map piece_bytes out ++ pend st'.
+Proof. unfold mground. intros H. brk H; inversion H; subst; eqs; reflexivity. Qed.
+
+Lemma mground_closed b out : mground b = MStop out KClosed -> b = 34 /\ out = [].
+Proof. unfold mground. intros H. brk H; inversion H; subst; eqs. split; reflexivity. Qed.
+
+Lemma fm_app (a b : list piece) : flat_map piece_bytes (a ++ b) = flat_map piece_bytes a ++ flat_map piece_bytes b.
+Proof. apply flat_map_app. Qed.
+
+Lemma madd_cont o r out st' : madd o r = MCont out st' -> exists o', r = MCont o' st' /\ out = o ++ o'.
+Proof. destruct r; simpl; intros H; inversion H; subst. eexists; split; reflexivity. Qed.
+Lemma madd_closed o r out : madd o r = MStop out KClosed -> exists o', r = MStop o' KClosed /\ out = o ++ o'.
+Proof. destruct r; simpl; intros H; inversion H; subst. eexists; split; reflexivity. Qed.
+
+Lemma flush_lit_bytes cur : flat_map piece_bytes (flush_lit cur) = cur.
+Proof. destruct cur; [reflexivity|]. simpl. rewrite app_nil_r. reflexivity. Qed.
+
+Lemma mstep_cont st b out st' : mstep st b = MCont out st' -> pend st ++ [b] = flat_map piece_bytes out ++ pend st'.
+Proof.
+  destruct st; cbn [mstep pend]; intros H.
+  - apply mground_cont in H. exact H.
+  - brk H; try (inversion H; subst; eqs; simpl; rewrite ?app_nil_r, <- ?app_assoc; reflexivity).
+    apply madd_cont in H. destruct H as (o' & Hg & ->). apply mground_cont in Hg.
+    rewrite fm_app. simpl. rewrite app_nil_r, <- app_assoc, <- Hg. reflexivity.
+  - brk H; try (inversion H; subst; eqs; simpl; rewrite ?app_nil_r, <- ?app_assoc; reflexivity).
+    apply madd_cont in H. destruct H as (o' & Hg & ->). apply mground_cont in Hg.
+    rewrite !fm_app, flush_lit_bytes. simpl. rewrite <- !app_assoc. simpl. rewrite <- Hg. reflexivity.
+  - brk H; inversion H; subst; reflexivity.
+  - brk H; try (inversion H; subst; eqs; reflexivity).
+    apply madd_cont in H. destruct H as (o' & Hg & ->). apply mground_cont in Hg.
+    rewrite fm_app. simpl. rewrite <- Hg. reflexivity.
+  - brk H; try (inversion H; subst; eqs; reflexivity).
+    apply madd_cont in H. destruct H as (o' & Hg & ->). apply mground_cont in Hg.
+    rewrite fm_app. simpl. rewrite <- Hg. reflexivity.
+  - brk H; try (inversion H; subst; eqs; reflexivity).
+    apply madd_cont in H. destruct H as (o' & Hg & ->). apply mground_cont in Hg.
+    rewrite fm_app. simpl. rewrite <- Hg. reflexivity.
+  - brk H; try (inversion H; subst; eqs; simpl; rewrite ?app_nil_r; reflexivity).
+    apply madd_cont in H. destruct H as (o' & Hg & ->). apply mground_cont in Hg.
+    rewrite fm_app. simpl. rewrite app_nil_r, <- app_assoc, <- Hg. reflexivity.
+Qed.
+
+Lemma mstep_closed st b out : mstep st b = MStop out KClosed -> pend st ++ [b] = flat_map piece_bytes out ++ [34].
+Proof.
+  destruct st; cbn [mstep pend]; intros H.
+  - apply mground_closed in H. destruct H as [-> ->]. reflexivity.
+  - brk H; try (inversion H; fail).
+    apply madd_closed in H. destruct H as (o' & Hg & ->). apply mground_closed in Hg. destruct Hg as [-> ->].
+    simpl. rewrite app_nil_r. reflexivity.
+  - brk H; try (inversion H; fail).
+    apply madd_closed in H. destruct H as (o' & Hg & ->). apply mground_closed in Hg. destruct Hg as [-> ->].
+    rewrite app_nil_r, fm_app, flush_lit_bytes. simpl. rewrite <- app_assoc. reflexivity.
+  - brk H; inversion H.
+  - brk H; try (inversion H; fail).
+    apply madd_closed in H. destruct H as (o' & Hg & ->). apply mground_closed in Hg. destruct Hg as [-> ->]. reflexivity.
+  - brk H; try (inversion H; fail).
+    apply madd_closed in H. destruct H as (o' & Hg & ->). apply mground_closed in Hg. destruct Hg as [-> ->]. reflexivity.
+  - brk H; try (inversion H; fail).
+    apply madd_closed in H. destruct H as (o' & Hg & ->). apply mground_closed in Hg. destruct Hg as [-> ->]. reflexivity.
+  - brk H; try (inversion H; fail).
+    apply madd_closed in H. destruct H as (o' & Hg & ->). apply mground_closed in Hg. destruct Hg as [-> ->].
+    simpl. rewrite app_nil_r. reflexivity.
+Qed.
+
+(* the tokens of a closed quoted string tile its bytes: nothing is lost or
+   invented between the opening and the closing quote *)
+Theorem lexq_tiles : forall bs st ps rest,
+  lexq st bs = (ps, LClosed rest) -> pend st ++ bs = flat_map piece_bytes ps ++ 34 :: rest.
+Proof.
+  induction bs as [|b r IH]; intros st ps rest H; [discriminate|].
+  cbn [lexq] in H. destruct (mstep st b) as [out st'|out k] eqn:E.
+  - destruct (lexq st' r) as [ps' s'] eqn:E'. unfold padd in H. simpl in H. inversion H; subst.
+    apply mstep_cont in E. apply IH in E'.
+    change (b :: r) with ([b] ++ r). rewrite app_assoc, E, <- app_assoc, E', fm_app, <- app_assoc. reflexivity.
+  - destruct k; inversion H; subst. apply mstep_closed in E.
+    change (b :: rest) with ([b] ++ rest). rewrite app_assoc, E, <- app_assoc. reflexivity.
+Qed.
